@@ -1,13 +1,286 @@
 (* C12 — Keys, parameters and keysets survive serialization unchanged.
-   Only statements + `exact`; proofs live in proofs/ProtoWireProofs.v,
-   proofs/SerialProofs.v. *)
+   Only statements + `exact`; proofs live in proofs/ProtoWireProofs.v and
+   proofs/SerialProofs.v; models in model/ProtoWire.v, model/Serial.v,
+   model/SerialTables.v (enum tables extracted from the Go switch statements). *)
 From Coq Require Import List NArith Bool.
-From Tink Require Import Bytes ProtoWire ProtoWireProofs.
+From Tink Require Import Bytes ProtoWire ProtoWireProofs SerialTables Serial SerialProofs.
 Import ListNotations.
 Open Scope N_scope.
+
+(* ================================================================== *)
+(* 1. the protobuf wire codec                                          *)
+(* ================================================================== *)
 
 (* Every uint64 survives the varint codec, whatever follows it on the wire. *)
 Theorem C12_varint_roundtrip :
   forall x rest, x < 2 ^ 64 -> varint_dec (varint_enc x ++ rest) = Some (x, rest).
 Proof. exact varint_roundtrip. Qed.
 Print Assumptions C12_varint_roundtrip.
+
+(* For every schema (distinct valid field numbers at every level) and every
+   well-typed message value of it whose encoding is shorter than 2^64 bytes:
+   decoding the canonical encoding gives the message back. *)
+Theorem C12_wire_roundtrip :
+  forall (s : schema) (m : msg),
+    wf_schema s = true -> wf_msg s m = true -> N.of_nat (length (encode s m)) < 2 ^ 64 ->
+    decode s (encode s m) = Some m.
+Proof. exact decode_encode. Qed.
+Print Assumptions C12_wire_roundtrip.
+
+(* Two well-formed messages with the same bytes are the same message. *)
+Theorem C12_wire_encoding_injective :
+  forall s m1 m2, wf_schema s = true -> wf_msg s m1 = true -> wf_msg s m2 = true ->
+    N.of_nat (length (encode s m1)) < 2 ^ 64 -> encode s m1 = encode s m2 -> m1 = m2.
+Proof. exact encode_injective. Qed.
+Print Assumptions C12_wire_encoding_injective.
+
+(* Canonical bytes (anything the encoder produces) decode and re-encode to
+   exactly the same bytes. *)
+Theorem C12_wire_canonical_reencoding :
+  forall s m b, wf_schema s = true -> wf_msg s m = true -> b = encode s m -> N.of_nat (length b) < 2 ^ 64 ->
+    exists m', decode s b = Some m' /\ encode s m' = b.
+Proof. exact canonical_reencode. Qed.
+Print Assumptions C12_wire_canonical_reencoding.
+
+(* For ANY accepted input bytes (non-minimal varints, unknown fields, repeated
+   occurrences, ...): the decoder's result is well-formed, and re-encoding it
+   gives bytes that decode to the same message (so a second re-encoding is
+   byte-identical to the first). *)
+Theorem C12_wire_decoder_output_wellformed :
+  forall s b m, decode s b = Some m -> wf_msg s m = true.
+Proof. exact decode_wf. Qed.
+Print Assumptions C12_wire_decoder_output_wellformed.
+
+Theorem C12_wire_reencoding_stable :
+  forall s b m, wf_schema s = true -> decode s b = Some m -> N.of_nat (length (encode s m)) < 2 ^ 64 ->
+    decode s (encode s m) = Some m.
+Proof. exact reencode_stable. Qed.
+Print Assumptions C12_wire_reencoding_stable.
+
+(* Fields whose number the schema does not know never influence the result. *)
+Theorem C12_wire_unknown_fields_ignored :
+  forall s a f b, ~ In (fst f) (nums s) -> dec_fields s (a ++ f :: b) = dec_fields s (a ++ b).
+Proof. exact unknown_field_ignored. Qed.
+Print Assumptions C12_wire_unknown_fields_ignored.
+
+(* ================================================================== *)
+(* 2. big integers: internal/ec.BigIntBytesToFixedSizeBuffer            *)
+(* ================================================================== *)
+
+(* Success: the result has exactly the requested size, the same big-endian
+   value, and differs from the input only by leading zero bytes. *)
+Theorem C12_fixed_size_buffer_success :
+  forall b size r, fixed_size_buffer b size = Some r ->
+    length r = size /\ be_val r = be_val b /\ (exists k, b = zeros k ++ r \/ r = zeros k ++ b).
+Proof. exact fixed_size_buffer_some. Qed.
+Print Assumptions C12_fixed_size_buffer_success.
+
+(* Failure: exactly when the value does not fit. *)
+Theorem C12_fixed_size_buffer_fails_iff_overflow :
+  forall b size, wfb b -> (fixed_size_buffer b size = None <-> 256 ^ N.of_nat size <= be_val b).
+Proof. exact fixed_size_buffer_none. Qed.
+Print Assumptions C12_fixed_size_buffer_fails_iff_overflow.
+
+(* EC coordinates / private scalars (ECDSA, JWT ECDSA, ECIES): whatever leading
+   zeros the proto field had, parse-then-serialize yields the value on cs+1
+   bytes with one leading zero byte; it fails exactly on overflow. *)
+Theorem C12_ec_coordinate_normal_form :
+  forall cs b, wfb b ->
+    (256 ^ N.of_nat cs <= be_val b -> ec_coord_norm cs b = None) /\
+    (be_val b < 256 ^ N.of_nat cs -> ec_coord_norm cs b = Some (0 :: be_bytes cs (be_val b))).
+Proof. exact ec_coord_norm_spec. Qed.
+Print Assumptions C12_ec_coordinate_normal_form.
+
+Theorem C12_ec_coordinate_normal_form_idempotent :
+  forall cs b r, wfb b -> ec_coord_norm cs b = Some r -> ec_coord_norm cs r = Some r.
+Proof. exact ec_coord_norm_idem. Qed.
+Print Assumptions C12_ec_coordinate_normal_form_idempotent.
+
+(* ================================================================== *)
+(* 3. enum maps of every */*/protoserialization.go                      *)
+(* ================================================================== *)
+
+(* For every (Go enum -> proto enum, proto enum -> Go enum) pair of switch maps:
+   Go -> proto -> Go is the identity (one listed exception: ECIES
+   UnspecifiedPointFormat, restored from the curve type instead); proto -> Go
+   -> proto is the identity except that OutputPrefixType LEGACY may come back
+   as CRUNCHY (the only non-injective case on the proto side); and whatever is
+   written back parses to the same Go value again. *)
+Theorem C12_enum_maps_roundtrip :
+  forall isp to_p from_p, In (isp, to_p, from_p) enum_map_pairs ->
+    (forall v p, lookup to_p v = Some p -> In v (fwd_exceptions to_p) \/ lookup from_p p = Some v) /\
+    (forall p v, lookup from_p p = Some v ->
+       lookup to_p v = Some p \/ (isp = true /\ p = 2 /\ lookup to_p v = Some 4)) /\
+    (forall p v, lookup from_p p = Some v -> exists p', lookup to_p v = Some p' /\ lookup from_p p' = Some v).
+Proof. exact enum_maps_roundtrip. Qed.
+Print Assumptions C12_enum_maps_roundtrip.
+
+(* ================================================================== *)
+(* 4. keys and parameters                                              *)
+(* ================================================================== *)
+
+(* parse (serialize k) = k for every key of every type, given what the key's
+   constructors guarantee (fields well-typed and in normal form, variant known
+   to the type's tables). *)
+Theorem C12_key_roundtrip :
+  forall (T : ktype) (k : gkey) (s : kser),
+    wf_schema (kt_schema T) = true ->
+    wf_msg (kt_schema T) (gk_fields k) = true ->
+    N.of_nat (length (encode (kt_schema T) (gk_fields k))) < 2 ^ 64 ->
+    normalise (kt_norm T) (kt_schema T) (gk_fields k) = Some (gk_fields k) ->
+    variant_ok T k ->
+    serialize_key T k = Some s ->
+    parse_key T s = Some k.
+Proof. exact parse_serialize_key. Qed.
+Print Assumptions C12_key_roundtrip.
+
+(* ... and so the second serialization is byte-identical to the first. *)
+Theorem C12_key_second_serialization_identical :
+  forall T k s,
+    wf_schema (kt_schema T) = true -> wf_msg (kt_schema T) (gk_fields k) = true ->
+    N.of_nat (length (encode (kt_schema T) (gk_fields k))) < 2 ^ 64 ->
+    normalise (kt_norm T) (kt_schema T) (gk_fields k) = Some (gk_fields k) ->
+    variant_ok T k -> serialize_key T k = Some s ->
+    exists k', parse_key T s = Some k' /\ serialize_key T k' = Some s.
+Proof. exact reserialize_identical. Qed.
+Print Assumptions C12_key_second_serialization_identical.
+
+(* For every type URL of the registry the table premise holds (by computation
+   over the regenerated tables); what remains is the key's own invariant. *)
+Theorem C12_registered_types_tables_ok :
+  forall url sch T k, ktype_of url sch = Some T ->
+    match kt_prefix T with
+    | PTables _ _ => True
+    | PJwt custom _ _ _ path => has_path sch (gk_fields k) path = true <-> gk_variant k = custom
+    | PIgnored => gk_variant k = 0 /\ gk_id k = 0
+    end ->
+    variant_ok T k.
+Proof. exact registered_variant_ok. Qed.
+Print Assumptions C12_registered_types_tables_ok.
+
+(* Parameters <-> key template.  For JWT types the premise excludes the
+   CustomKID strategy: see the next theorem. *)
+Theorem C12_parameters_roundtrip :
+  forall T p t,
+    wf_schema (kt_schema T) = true -> wf_msg (kt_schema T) (gp_fields p) = true ->
+    N.of_nat (length (encode (kt_schema T) (gp_fields p))) < 2 ^ 64 ->
+    match kt_prefix T with
+    | PTables to_p from_p => forall pr, lookup to_p (gp_variant p) = Some pr -> lookup from_p pr = Some (gp_variant p)
+    | PJwt custom to_p from_p _ _ => forall pr, lookup to_p (gp_variant p) = Some pr -> lookup from_p pr = Some (gp_variant p)
+    | PIgnored => gp_variant p = 0
+    end ->
+    serialize_params T p = Some t -> parse_params T t = Some p.
+Proof. exact parse_serialize_params. Qed.
+Print Assumptions C12_parameters_roundtrip.
+
+(* The tables of all five JWT key types send the CustomKID strategy to a prefix
+   that parses (a key template has no custom kid) to a different strategy:
+   CustomKID parameters cannot survive serialization.  This is a finding
+   against /repo, confirmed on the implementation by the direct checks. *)
+Theorem C12_jwt_custom_kid_parameters_do_not_roundtrip :
+  forall custom to_p from_p from_kid, In (custom, to_p, from_p, from_kid) jwt_custom_kid_maps ->
+    exists pr v', lookup to_p custom = Some pr /\ lookup from_p pr = Some v' /\ v' <> custom.
+Proof. exact jwt_custom_kid_parameters_lossy. Qed.
+Print Assumptions C12_jwt_custom_kid_parameters_do_not_roundtrip.
+
+(* ================================================================== *)
+(* 5. keysets                                                          *)
+(* ================================================================== *)
+
+(* tinkpb.Keyset through the binary writer and reader. *)
+Theorem C12_proto_keyset_roundtrip :
+  forall ks, wf_pkeyset ks = true -> N.of_nat (length (write_keyset ks)) < 2 ^ 64 ->
+    read_keyset (write_keyset ks) = Some ks.
+Proof. exact read_write_keyset. Qed.
+Print Assumptions C12_proto_keyset_roundtrip.
+
+(* entriesToProtoKeyset then keysetToEntries gives back the same entries (keys,
+   ids, statuses, primary, order) for every well-formed handle whose keys
+   round-trip individually. *)
+Theorem C12_entries_roundtrip :
+  forall (K : Type) (ser_k : K -> option kser) (par_k : kser -> option K) (es : list (entry K)),
+    wf_handle K ser_k par_k es ->
+    exists ks, entries_to_proto_keyset K ser_k es = Some ks /\
+               keyset_to_entries K par_k ks = Some es /\
+               wf_pkeyset ks = true /\ pks_keys ks <> [].
+Proof. exact keyset_entries_roundtrip. Qed.
+Print Assumptions C12_entries_roundtrip.
+
+(* insecurecleartextkeyset.Write then Read, binary. *)
+Theorem C12_cleartext_roundtrip :
+  forall K ser_k par_k (es : list (entry K)) b,
+    wf_handle K ser_k par_k es -> write_cleartext K ser_k es = Some b -> N.of_nat (length b) < 2 ^ 64 ->
+    read_cleartext K par_k b = Some es.
+Proof. exact read_write_cleartext. Qed.
+Print Assumptions C12_cleartext_roundtrip.
+
+(* Handle.WriteWithAssociatedData then keyset.ReadWithAssociatedData, binary,
+   for every AEAD (any function pair with dec ad (enc ad p) = p) and every
+   associated data. *)
+Theorem C12_encrypted_roundtrip :
+  forall K ser_k par_k (aead_enc : bytes -> bytes -> bytes) (aead_dec : bytes -> bytes -> option bytes),
+    (forall ad p, aead_dec ad (aead_enc ad p) = Some p) ->
+    forall (es : list (entry K)) ad b,
+      wf_handle K ser_k par_k es -> write_encrypted K ser_k aead_enc es ad = Some b -> N.of_nat (length b) < 2 ^ 64 ->
+      (forall ks, entries_to_proto_keyset K ser_k es = Some ks -> N.of_nat (length (write_keyset ks)) < 2 ^ 64) ->
+      read_encrypted K par_k aead_dec b ad = Some es.
+Proof. exact read_write_encrypted. Qed.
+Print Assumptions C12_encrypted_roundtrip.
+
+(* Public(): ids, statuses, primary flags and order are preserved and every
+   key is replaced by its public key; it succeeds on every well-formed handle
+   all of whose keys have a public key. *)
+Theorem C12_public_preserves_shape :
+  forall K (pub_k : K -> option K) (es es' : list (entry K)),
+    public_handle K pub_k es = Some es' ->
+    map e_id es' = map e_id es /\ map e_status es' = map e_status es /\ map e_primary es' = map e_primary es /\
+    Forall2 (fun e e' => pub_k (e_key e) = Some (e_key e')) es es'.
+Proof. exact public_handle_preserves. Qed.
+Print Assumptions C12_public_preserves_shape.
+
+Theorem C12_public_total :
+  forall K ser_k par_k (pub_k : K -> option K) (es : list (entry K)),
+    wf_handle K ser_k par_k es -> (forall e, In e es -> pub_k (e_key e) <> None) ->
+    exists es', public_handle K pub_k es = Some es'.
+Proof. exact public_handle_total. Qed.
+Print Assumptions C12_public_total.
+
+(* ================================================================== *)
+(* non-vacuity                                                         *)
+(* ================================================================== *)
+(* a concrete AES-GCM key (TINK, id 2^31) with its registered type *)
+Example C12_nonvacuous_key :
+  let url := aesgcm_url in
+  let sch := SCons 1 TU32 (SCons 3 TBytes SNil) in
+  exists T, ktype_of url sch = Some T /\
+    let k := mkGkey url 1 1 2147483648 [VInt 0; VBytes [1; 2; 3; 4; 5; 6; 7; 8; 9; 10; 11; 12; 13; 14; 15; 16]] in
+    wf_schema sch = true /\ wf_msg sch (gk_fields k) = true /\ variant_ok T k /\
+    exists s, serialize_key T k = Some s /\ parse_key T s = Some k /\
+      ks_value s = [26; 16; 1; 2; 3; 4; 5; 6; 7; 8; 9; 10; 11; 12; 13; 14; 15; 16] /\ ks_prefix s = 1.
+Proof.
+  eexists. split; [vm_compute; reflexivity|]. cbv zeta.
+  split; [reflexivity|]. split; [reflexivity|]. split.
+  - intros p H. vm_compute in H. inversion H. reflexivity.
+  - eexists. split; [vm_compute; reflexivity|]. split; [vm_compute; reflexivity|]. split; reflexivity.
+Qed.
+
+(* a concrete two-key handle of fallback keys (serialisation = the key) *)
+Example C12_nonvacuous_handle :
+  let k1 := mkKser [116; 49] [1; 2; 3] 1 1 7 in
+  let k2 := mkKser [116; 50] [9] 3 3 0 in
+  let es := [mkEntry k1 false 7 Disabled; mkEntry k2 true 4294967295 Enabled] in
+  wf_handle kser Some Some es /\
+  exists b, write_cleartext kser Some es = Some b /\ read_cleartext kser Some b = Some es /\
+    public_handle kser Some es = Some es.
+Proof.
+  cbv zeta. split.
+  - constructor.
+    + cbn. repeat constructor; cbn; intuition discriminate.
+    + intros e [<-|[<-|[]]]; cbn; reflexivity.
+    + exists [mkEntry (mkKser [116; 49] [1; 2; 3] 1 1 7) false 7 Disabled],
+        (mkEntry (mkKser [116; 50] [9] 3 3 0) true 4294967295 Enabled), [].
+      repeat split. repeat constructor.
+    + intros e [<-|[<-|[]]]; cbn; discriminate.
+    + intros e [<-|[<-|[]]]; eexists; repeat split; reflexivity.
+  - eexists. split; [vm_compute; reflexivity|]. split; vm_compute; reflexivity.
+Qed.
